@@ -256,9 +256,9 @@ _WSH = [{'kf': f, 'km': m} for f in KINDS for m in KINDS]
 
 CONDITIONS = [
     {'fn': 'atom_vs_value', 'nontrivial': 'pattern', 'what': 'atom filter vs recorded value: equality / pattern / None rule, never raises',
-     'tiers': {'quick': _t({'S': 2}, 150), 'thorough': _t({'S': 4}, 600)}},
+     'tiers': {'quick': _t({'S': 2}, 150), 'thorough': _t({'S': 3}, 600)}},
     {'fn': 'operator_vs_value', 'nontrivial': 'compare', 'what': 'operator object with symbolic operator text vs any recorded value',
-     'tiers': {'quick': _t({'S': 2}, 150), 'thorough': _t({'S': 4}, 600)}},
+     'tiers': {'quick': _t({'S': 2}, 150), 'thorough': _t({'S': 3}, 600)}},
     {'fn': 'list_filter', 'nontrivial': 'second-alternative', 'what': 'list of two alternatives (atoms / operator objects): any-of; sharded by the kinds of both alternatives and of the recorded value',
      'tiers': {'quick': _t({'S': 1}, 200, _LSH, {'k1': 'I', 'k2': 'OI', 'km': 'I'}), 'thorough': _t({'S': 2}, 900, _LSH, {'k1': 'I', 'k2': 'OI', 'km': 'I'})}},
     {'fn': 'dict_atom', 'nontrivial': 'dict-eq', 'what': 'dict atom (no operator/value keys) matches by equality',
